@@ -5,6 +5,7 @@ package harness
 import (
 	"context"
 	"fmt"
+	"runtime"
 	"sync"
 	"sync/atomic"
 	"testing"
@@ -22,15 +23,16 @@ import (
 )
 
 type c06Case struct {
-	Cloner  string // default | codec | clonefunc | copyfunc
-	Kind    string // unary | bidi | client-stream | server-stream
-	Reqs    []MsgSpec
-	Resps   []MsgSpec
-	Prefill MsgSpec // content of receive destinations before the receive
-	DynCli  bool    // the client uses dynamic messages
-	DynSrv  bool    // the handler uses dynamic messages
-	Reuse   bool    // the sender reuses one message object for all its sends
-	Early   bool    // unary only: the call is cancelled before the handler decodes the request (schedule point)
+	SlowRecv bool   `json:",omitempty"` // streams: the client calls Header() first and dawdles, so the handler gets ahead of it
+	Cloner   string // default | codec | clonefunc | copyfunc
+	Kind     string // unary | bidi | client-stream | server-stream
+	Reqs     []MsgSpec
+	Resps    []MsgSpec
+	Prefill  MsgSpec // content of receive destinations before the receive
+	DynCli   bool    // the client uses dynamic messages
+	DynSrv   bool    // the handler uses dynamic messages
+	Reuse    bool    // the sender reuses one message object for all its sends
+	Early    bool    // unary only: the call is cancelled before the handler decodes the request (schedule point)
 }
 
 func c06Cloner(name string) inprocgrpc.Cloner {
@@ -249,6 +251,14 @@ func propC06(c c06Case) *Outcome {
 			}
 		}
 		cs.CloseSend()
+		if c.SlowRecv {
+			// the handler runs ahead: Header() (no header is coming) parks the first message on the client,
+			// the next sits in the buffer, the handler prepares a third; each stays what it was when sent
+			cs.Header()
+			for k := 0; k < 20; k++ {
+				runtime.Gosched()
+			}
+		}
 		for j := 0; j < len(c.Resps)+1; j++ {
 			dst := c06Make(c.Prefill, c.DynCli)
 			err := cs.RecvMsg(dst)
@@ -478,6 +488,7 @@ func genC06(t *rapid.T) c06Case {
 		c.Resps = append(c.Resps, genRich("resp"))
 	}
 	c.Prefill = genRich("prefill")
+	c.SlowRecv = c.Kind != kUnary && rapid.IntRange(0, 2).Draw(t, "slowrecv") == 0
 	c.DynCli = rapid.IntRange(0, 3).Draw(t, "dyncli") == 0
 	c.DynSrv = rapid.IntRange(0, 3).Draw(t, "dynsrv") == 0
 	if c.Cloner == "clonefunc" && c.Kind != kUnary {
